@@ -527,6 +527,20 @@ func (c *Ctx) runStressChild(exe, dir string, sp stressSpec) ([]callResult, stri
 	var stdout, stderr bytes.Buffer
 	cmd.Stdout, cmd.Stderr = &stdout, &stderr
 	if err := cmd.Run(); err != nil && stdout.Len() == 0 {
+		// the Go runtime ends the process when goroutines collide on a map (not a
+		// panic: nothing can recover it). With more than one goroutine that is what
+		// concurrent use did to the calls - none of them returned what it returns alone
+		if se := stderr.String(); sp.Goroutines > 1 && (strings.Contains(se, "fatal error: concurrent map") || strings.Contains(se, "fatal error: sync:")) {
+			line := "fatal error"
+			for _, l := range strings.Split(se, "\n") {
+				if strings.HasPrefix(l, "fatal error:") {
+					line = l
+					break
+				}
+			}
+			c.report("concurrent-crash:"+line, "the process is ended by the Go runtime while independent calls run concurrently: "+line, map[string]interface{}{"stderr": tail(se, 3000), "calls": sp.Calls})
+			return nil, se
+		}
 		c.die("stress child failed: %v\n%s", err, tail(stderr.String(), 2000))
 	}
 	var out []callResult
